@@ -160,6 +160,15 @@ type c21Case struct {
 	Probes []tProbe
 }
 
+// genVersion: mostly small versions (collisions across inputs), sometimes values around the 32- and
+// 63-bit boundaries and the top of the range (versions are arbitrary uint64 in managed mode).
+func genVersion(t *rapid.T, label string) uint64 {
+	if rapid.IntRange(0, 3).Draw(t, label+"big") == 0 {
+		return rapid.SampledFrom([]uint64{1 << 31, 1 << 32, 1<<32 + 1, 1<<63 - 1, 1 << 63, 1<<63 + 1, 1<<64 - 2, 1<<64 - 1}).Draw(t, label)
+	}
+	return uint64(rapid.IntRange(0, 5).Draw(t, label+"small"))
+}
+
 func genC21(t *rapid.T) c21Case {
 	var c c21Case
 	n := rapid.IntRange(0, 9).Draw(t, "ninputs")
@@ -171,7 +180,7 @@ func genC21(t *rapid.T) c21Case {
 	}
 	var pool []ik
 	for i := 0; i < npool; i++ {
-		pool = append(pool, ik{rapid.SliceOfN(rapid.SampledFrom(keyAlphabet), 1, 4).Draw(t, "pk"), uint64(rapid.IntRange(0, 4).Draw(t, "pts"))})
+		pool = append(pool, ik{rapid.SliceOfN(rapid.SampledFrom(keyAlphabet), 1, 4).Draw(t, "pk"), genVersion(t, "pts")})
 	}
 	for i := 0; i < n; i++ {
 		m := rapid.IntRange(0, 10).Draw(t, "m")
@@ -188,9 +197,9 @@ func genC21(t *rapid.T) c21Case {
 	for i := 0; i < np; i++ {
 		if rapid.Bool().Draw(t, "frompool") {
 			p := pool[rapid.IntRange(0, npool-1).Draw(t, "ppi")]
-			c.Probes = append(c.Probes, tProbe{p.k, uint64(rapid.IntRange(0, 5).Draw(t, "pts2"))})
+			c.Probes = append(c.Probes, tProbe{p.k, genVersion(t, "pts2")})
 		} else {
-			c.Probes = append(c.Probes, tProbe{rapid.SliceOfN(rapid.SampledFrom(keyAlphabet), 1, 5).Draw(t, "k"), uint64(rapid.IntRange(0, 5).Draw(t, "ts"))})
+			c.Probes = append(c.Probes, tProbe{rapid.SliceOfN(rapid.SampledFrom(keyAlphabet), 1, 5).Draw(t, "k"), genVersion(t, "ts")})
 		}
 	}
 	return c
@@ -302,6 +311,6 @@ func runC21(c c21Case, rec *evid.Rec) (core.Result, error) {
 
 func TestC21_MergeIterator(t *testing.T) {
 	core.Run(t, "C21", "merge",
-		"rapid-generated 0-9 sorted inputs (slice-backed y.Iterators, real tables, real skiplists; 0-10 entries each drawn from a shared pool of <=14 internal keys so duplicates across inputs are the norm; values tag the input index) merged forward and reverse; oracle = sorted union keeping the copy from the earliest input; full scans plus Seek from pool and random keys. Non-trivial = >=3 inputs with at least one internal key present in >=2 inputs.",
+		"rapid-generated 0-9 sorted inputs (slice-backed y.Iterators, real tables, real skiplists; 0-10 entries each drawn from a shared pool of <=14 internal keys (versions 0-5 and values around 2^31, 2^32, 2^63, 2^64-1) so duplicates across inputs are the norm; values tag the input index) merged forward and reverse; oracle = sorted union keeping the copy from the earliest input; full scans plus Seek from pool and random keys. Non-trivial = >=3 inputs with at least one internal key present in >=2 inputs.",
 		genC21, runC21)
 }
